@@ -241,8 +241,13 @@ Definition flag_misbehaviour (sd : slotdata) : slotdata * list bevent :=
 Definition ret_of_event (e : option bevent) : bs_ret :=
   match e with Some (BBlock h p) => BROk (Some (h, p)) | _ => BROk None end.
 
-Definition bs_step (chk : bool) (ct : content) (slot : N) (sd : slotdata) (op : bs_op) : slotdata * bs_ret * list bevent :=
+(* [tagchk]: current tree ("fix: do not blame the leader for a shred whose type contradicts its index"): a shred
+   whose unsigned data / coding tag contradicts its index is refused up front, without flagging the leader *)
+Definition shred_tag_ok (s : bshred) : bool := Bool.eqb (b_index s <? DATA_SHREDS) (b_is_data s).
+Definition bs_step_gen (tagchk : bool) (chk : bool) (ct : content) (slot : N) (sd : slotdata) (op : bs_op) : slotdata * bs_ret * list bevent :=
   if sd_panicked sd then (sd, BRPanic, [])
+  else if tagchk && match op with BDissem s | BRepair _ _ s => negb (shred_tag_ok s) | BOwnSlice _ _ _ _ => false end
+  then (sd, BRErr EInvalidShred, [])
   else
     match op with
     | BDissem s =>
@@ -304,6 +309,8 @@ Definition bs_step (chk : bool) (ct : content) (slot : N) (sd : slotdata) (op : 
       end
     end.
 
+Definition bs_step := bs_step_gen true.
+
 (* observable queries *)
 Record bs_obs := mkBObs {
   bo_dissem_hash : option blockhash;
@@ -314,3 +321,8 @@ Fixpoint pair_insert_sorted (x : N * N) (l : list (N * N)) : list (N * N) :=
 Definition bs_observe (sd : slotdata) : bs_obs :=
   mkBObs (match bd_completed (sd_dissem sd) with Some (h, _) => Some h | None => None end)
          (fold_right pair_insert_sorted [] (map (fun x => (fst x, N.of_nat (length (snd x)))) (bd_shreds (sd_dissem sd)))).
+
+(* specification vocabulary (not run by the oracle): the tag test of the shred an operation carries through the
+   guard of [bs_step_gen true]; the leader's own slices carry none *)
+Definition op_tag_ok (op : bs_op) : bool :=
+  match op with BDissem s | BRepair _ _ s => shred_tag_ok s | BOwnSlice _ _ _ _ => true end.
